@@ -1153,7 +1153,7 @@ impl H {
             self.csr_keys[if sender == "kid2" { "kid2" } else { "kid1" }]
         ].iter().map(|k| k.to_string()).collect();
         match (kind, reply.as_ref().map(|c| c.message().payload())) {
-            (PKind::List | PKind::ListForeignRecipient,
+            (PKind::List | PKind::ListForeignRecipient | PKind::ListSuspended,
              Some(Payload::ListResponse(list))) => {
                 if kind == PKind::ListForeignRecipient {
                     r.count("recipient_field_mismatch_accepted", 1);
